@@ -22,7 +22,9 @@ R = Rules(
         "advances exactly once per acknowledged block, the size-reduction loop is the transformer "
         "(cursor, szx) -> (cursor*2^k, szx-k) that keeps cursor*2^(szx+4), the final block refuses "
         "'more'/2.31, three raising guards precede the Block2 append, assembly errors are re-raised and "
-        "reach response.set_exception.  Paper step: with these premises the offsets sent are contiguous and "
+        "reach response.set_exception.  C05.f evaluates the same size-reduction step at the BERT exponent, where "
+        "block numbers count 1024-byte units exactly as at exponent 6 (RFC 8323 section 6), so the cursor must "
+        "not be doubled when going from 7 to 6.  Paper step: with these premises the offsets sent are contiguous and "
         "the assembled body is a concatenation of in-order blocks of one representation.  Not decided: "
         "end-to-end byte identity over a lossy network, the independent server's behaviour."
     ),
